@@ -191,6 +191,21 @@ namespace sim
             op.h = h;
             if (alloc_faults && frng.chance(0.08))
               op.alloc_fail = frng.range(1, 30);
+            // "this rare condition was reached" probes (counted in evidence)
+            bool grains_then_velocity = false, seen_grains = false;
+            for (const auto &p : op.props)
+              {
+                if (p[0] == 3 && p[2] != 1)
+                  seen_grains = true;
+                if (p[0] == 5 && seen_grains)
+                  grains_then_velocity = true;
+              }
+            if (op.op == "q2" && grains_then_velocity)
+              op.note = "2d_grains_kne1_then_velocity";
+            else if (op.d == 0.0 && slot.w->force_surface_t && op.props.size() > 1)
+              op.note = "forced_surface_temperature_batched";
+            else if (op.alloc_fail)
+              op.note = "alloc_fault_in_query";
             s.ops.push_back(op);
           }
       }
@@ -567,6 +582,38 @@ namespace sim
           }
         Q.push_back(q);
       }
+    if (rng.chance(0.15))
+      {
+        // one client thread per world: twins (and a sibling) queried at the same time. Worlds share nothing
+        // by contract, so any report of ThreadSanitizer and any difference between the twins is state that
+        // leaks between worlds (a function-local static scratch object, a shared engine)
+        s.generator += "+threads";
+        s.ops.push_back(create(0, w.name, sa));
+        s.ops.push_back(create(1, w.name, sa));
+        s.ops.push_back(create(2, w.name, sc));
+        std::vector<Op> ta, tb, tc;
+        for (int i = 0; i < n; ++i)
+          {
+            Op a = Q[static_cast<size_t>(i)];
+            a.draws = -1;
+            a.h = 0;
+            a.eq = "t" + std::to_string(i);
+            Op b = a;
+            b.h = 1;
+            Op c = Q[static_cast<size_t>(i)];
+            c.draws = -1;
+            c.h = 2;
+            ta.push_back(a);
+            tb.push_back(b);
+            tc.push_back(c);
+          }
+        s.threads.push_back(ta);
+        s.threads.push_back(tb);
+        s.threads.push_back(tc);
+        Rng srng = stream(rs, "schedule");
+        s.sched = random_sched(srng, 3);
+        return true;
+      }
     // lay the history out: A contiguous or interleaved, B interleaved with C and the unrelated world
     s.ops.push_back(create(0, w.name, sa));
     if (rng.chance(0.5))
@@ -757,6 +804,44 @@ namespace sim
     };
     for (auto &p : pairs)
       create_pair(p);
+    if (rng.chance(0.15) && pairs[0].kind == "c" && !pairs[0].w.random)
+      {
+        // concurrent clients of one C handle next to a client of the native twin: the wrapper must stay
+        // transparent when its functions are entered by several threads (the library itself is re-entrant, C14)
+        s.generator = "c16+threads";
+        s.engine_model = false;
+        const Pair &p = pairs[0];
+        std::vector<Op> tn, tw, tw2;
+        const int n = static_cast<int>(rng.range(5, 25));
+        Slot dummy;
+        for (int i = 0; i < n; ++i)
+          {
+            Op q;
+            fill_query(q, p.w, dummy, rng, false, true);
+            if (q.via == "grains" || q.via == "temperature_g")
+              q.via = "properties";
+            q.h = p.hn;
+            q.eq = "t" + std::to_string(i);
+            tn.push_back(q);
+            q.h = p.hw;
+            tw.push_back(q);
+            Op o;
+            fill_query(o, p.w, dummy, rng, false, true);
+            if (o.via == "grains" || o.via == "temperature_g")
+              o.via = "properties";
+            o.h = p.hw;
+            o.eq = "u" + std::to_string(i);
+            tw2.push_back(o);
+            o.h = p.hn;
+            s.ops.push_back(o); // the native answer to the second client's question, asked beforehand
+          }
+        s.threads.push_back(tn);
+        s.threads.push_back(tw);
+        s.threads.push_back(tw2);
+        Rng srng = stream(rs, "schedule");
+        s.sched = random_sched(srng, 3);
+        return true;
+      }
     const int nops = static_cast<int>(tier == "thorough" ? rng.range(10, 80) : rng.range(8, 40));
     for (int i = 0; i < nops; ++i)
       {
